@@ -45,6 +45,7 @@ def tasks(tier):
     t.append(("contracts.allsizes", "uhf_wick", dict(what="fb")))
     t.append(("contracts.allsizes", "rhf_wick", dict(what="fb", restricted=True)))
     t.append(("contracts.allsizes", "rhf_wick", dict(what="fb", restricted=False)))
+    t.append(("contracts.allsizes", "noci_wick", dict(what="fb")))
     t.append((W, "canary", dict(which="fb")))
     return t
 
